@@ -72,11 +72,26 @@ def circuits():
     return _CIRCUITS
 
 
-def circuit_token(qc) -> str:
+_DYNAMIC: list = []  # copies of circuits met that are not in the fixed table (sequence scenarios build and mutate their own)
+
+
+def reset_dynamic_circuits():
+    _DYNAMIC.clear()
+
+
+def circuit_token(qc, register=True) -> str:
+    """Token of a circuit *value* (QuantumCircuit.__eq__): QPY<k> for the fixed table, QPYd<k> for circuits first met at
+    run time, of which a private copy is kept, so a later in-place change of qc gives a new token."""
     for k, c in enumerate(circuits()):
         if c == qc:
             return f"QPY{k}"
-    return "QPY?"
+    for k, c in enumerate(_DYNAMIC):
+        if c == qc:
+            return f"QPYd{k}"
+    if not register:
+        return "QPY?"
+    _DYNAMIC.append(qc.copy())
+    return f"QPYd{len(_DYNAMIC) - 1}"
 
 
 def classes():
@@ -160,7 +175,9 @@ def from_pv(pv):
     if "c" in pv:
         return complex(pv["c"][0], pv["c"][1])
     if "qc" in pv:
-        return circuits()[int(pv["qc"][3:])]
+        # a fresh object every time: circuits are short-lived like every other generated object (an encoder that remembers
+        # anything by object identity meets re-used ids)
+        return circuits()[int(pv["qc"][3:])].copy()
     if "o" in pv:
         name, args = pv["o"], [from_pv(a) for a in pv["a"]]
         cls = classes()[name]
@@ -257,7 +274,7 @@ def tokenise_circuits(tree):
         for k, v in tree.items():
             if k == "qiskit_quantum_circuit" and isinstance(v, str):
                 try:
-                    out[k] = circuit_token(qpy_load(io.BytesIO(base64.b64decode(v)))[0])
+                    out[k] = circuit_token(qpy_load(io.BytesIO(base64.b64decode(v)))[0], register=False)
                 except Exception as e:  # not a QPY payload
                     out[k] = "QPY!" + type(e).__name__
             else:
